@@ -752,7 +752,6 @@ func ruleK4(c *Ctx, id string) {
 	}
 }
 
-
 // ruleK7: the bits PreCommit writes for an allocated / freed number are the
 // bits mkfs and the allocators mean: bit n of the bitmap that starts at the
 // region's first block (C01.R3's WriteBits clauses, reported here because a
